@@ -4,6 +4,7 @@ import Tickit.Proof.WinFocusHist
 import Tickit.Proof.WinFocusRestack
 import Tickit.Proof.WinFocusResize
 import Tickit.Proof.WinFocusMock
+import Tickit.Proof.WinFocusMockHist
 import Tickit.Gen.WinFocusSrc
 /-
   C15 — After a flush the terminal cursor reflects the focused window, or is hidden.
@@ -565,6 +566,19 @@ theorem history_every_flush_resize (fx : Fixes) (hfx1 : fx.hiddenRoot = true) (h
     s'.term.matches (cursorSpec s'.tree) = true :=
   (flush_step hfx1 (runOps_invR hfx1 hfx2 hfx3 ops _ s hplain (hinv_newRoot l c hl hc) h) hf).2
 
+/-- **The same on the library's own mock terminal** (`MSt`, `stepOpMock`, `runOpsMock`, Proof/WinFocusMockHist.lean: the
+    flush's calls are executed by the mock — goto clamped to the screen, `!!value` for visibility and blink —, a resize
+    is `tickit_mockterm_resize`): from `tickit_mockterm_new(l, c)` and a fresh root window, after any such history that
+    ends in a flush, the cursor the mock terminal *reports* is `cursorSpec` of the tree.  The extra invariant: the root
+    window always covers exactly the screen (no operation but the resize event touches its rectangle), so the clamp
+    never bites.  This is the specification the engine evaluates in its second configuration (`newmock`). -/
+theorem history_cursor_mock (fx : Fixes) (hfx1 : fx.hiddenRoot = true) (hfx2 : fx.chainRestore = true)
+    (hfx3 : fx.resizeRestore = true)
+    (l c : Int) (hl : 0 < l) (hc : 0 < c) (ops : List Op) (hplain : ∀ op ∈ ops, op.plainR) (s : MSt)
+    (h : runOpsMock fx { tree := newRoot l c, lines := l, cols := c } (ops ++ [.flush]) = .ok s) :
+    s.term.matches (cursorSpec s.tree) = true :=
+  WinFocus.history_cursor_mock hfx1 hfx2 hfx3 l c hl hc ops hplain s h
+
 /-- Every operation preserves the invariants (full statement: `Good15`, which contains the store invariant `wfB`). -/
 def wf_preserved_full (fx : Fixes) : Prop :=
   ∀ (s s' : HSt) (op : Op), Good15 s.tree → stepOp fx s op = .ok s' → Good15 s'.tree
@@ -805,6 +819,16 @@ example : ∃ s, runOps Fixes.all { tree := newRoot 6 10 }
 example : ∃ s, runOps Fixes.all { tree := newRoot 6 10 }
     [.newWin 0 ⟨1, 1, 3, 3⟩ false false false false, .curpos 1 1 1, .focus 1, .flush, .termResize 2 2, .flush,
      .termResize 6 10, .flush] = .ok s ∧ s.term = { vis := 1, line := 2, col := 2, shape := 1, blink := -1 } := by
+  refine ⟨_, rfl, ?_⟩; decide
+
+/-- a history on the mock terminal: blink mode set explicitly, bar cursor, a resize through the window and back -/
+example : ∃ s, runOpsMock Fixes.all { tree := newRoot 6 10, lines := 6, cols := 10 }
+    [.newWin 0 ⟨1, 1, 3, 3⟩ false false false false, .curshape 1 3, .curblink 1 1, .curpos 1 1 1, .focus 1, .flush] = .ok s ∧
+    s.term = { vis := 1, line := 2, col := 2, shape := 3, blink := 1 } := by
+  refine ⟨_, rfl, ?_⟩; decide
+example : ∃ s, runOpsMock Fixes.all { tree := newRoot 6 10, lines := 6, cols := 10 }
+    [.newWin 0 ⟨1, 1, 3, 3⟩ false false false false, .curshape 1 3, .curblink 1 1, .curpos 1 1 1, .focus 1, .flush,
+     .termResize 2 2, .flush] = .ok s ∧ s.term = { vis := 0, line := 1, col := 1, shape := 3, blink := 1 } := by
   refine ⟨_, rfl, ?_⟩; decide
 
 end Tickit.Props.C15
